@@ -54,6 +54,7 @@ def run(mod, tier, seed, replay=None):
     else:
         cases = list(getattr(mod, "corpus", lambda: [])()) + mod.gen(rng, tier, open_keys)
     henv = dict(os.environ, **getattr(mod, "HARNESS_ENV", {}))
+    henv.setdefault("VERIF_CASE_TIMEOUT_MS", "4000" if tier == "quick" else "15000")
     hargs = [prop] + getattr(mod, "HARNESS_ARGS", [])
     impl, rc_i, err_i = C.run_lines(hbin, hargs, cases, timeout=getattr(mod, "TIMEOUT", 900), env=henv)
     have_driver = os.path.exists(C.driver_bin())
@@ -112,14 +113,22 @@ def run(mod, tier, seed, replay=None):
         if nviol >= 5:
             break
         small = line
-        if hasattr(mod, "shrink"):
-            small = mod.shrink(line, lambda l: (lambda o: o[0] is None or bool(mod.predicate(l, o[0])))(recheck(l)))
+        if hasattr(mod, "shrink") and os.environ.get("VERIF_NO_SHRINK") != "1":
+            def same_failure(l, key=key):
+                o = recheck(l)[0]
+                if o is None:
+                    return io is None
+                w = mod.predicate(l, o)
+                if not w:
+                    return False
+                return (mod.classify(l, o, w) if hasattr(mod, "classify") else None) == key
+            small = mod.shrink(line, same_failure)
         io2, mo2 = recheck(small)
         why2 = (mod.predicate(small, io2) if io2 is not None else "no output (crash or hang)") or why
         path = C.write_replay(prop, f"violation-{seed}-{nviol}.txt",
                               f"# property {prop}: {why2}\n# replay: ./check {prop} --replay <this file>\n{small}\n"
                               f"# implementation: {io2}\n# model:          {mo2}\n")
-        rep.violation(path, why2)
+        rep.violation(path, why2[:300])
         nviol += 1
     if nviol == 0 and (disagreements or proof_broken):
         # correspondence or a proof obligation broke but the property predicate holds on every
